@@ -5,7 +5,7 @@ CONSTANTS
   Queries <- MQueries
   FetchSizes <- Sizes
   Variant = "shipped"
-  MaxLevel = 5
+  MaxLevel = 7
 INIT Init
 NEXT Next
 CONSTRAINT Bounded
